@@ -3,8 +3,8 @@
 use crate::{proofs, sym, witness};
 use duke::verif::reader;
 
-//# {"id":"c16_labels_range_past_u16","props":["C16","C01"],"tier":"thorough","cap":7200,"z":["stubbing"],"bound":"code_length = 20, start_pc < 20, start_pc + length > 65535 (all such u16 pairs); one label-map entry; unwind 10","fns":["Labels::{new,get_or_create,get_or_create_range}"],"stubs":["RandomState::new","DefaultHasher::{write,finish}"]}
-//# {"id":"c16_labels_range","props":["C16","C01"],"tier":"thorough","cap":5400,"z":["stubbing"],"bound":"code_length = 20 (concrete, it sizes the hash map), all start_pc and length in u16; one or two label-map entries; unwind 10","fns":["duke::class_reader::labels::Labels::{new,get_or_create,get_or_create_range}"],"stubs":["RandomState::new","DefaultHasher::{write,finish}"]}
+//# {"id":"c16_labels_range_past_u16","props":["C16","C01"],"tier":"thorough","cap":3600,"z":["stubbing"],"bound":"code_length = 20, start_pc < 20, start_pc + length > 65535 (all such u16 pairs); one label-map entry; unwind 10","fns":["Labels::{new,get_or_create,get_or_create_range}"],"stubs":["RandomState::new","DefaultHasher::{write,finish}"]}
+//# {"id":"c16_labels_range","props":["C16","C01"],"tier":"thorough","cap":3600,"z":["stubbing"],"bound":"code_length = 20 (concrete, it sizes the hash map), all start_pc and length in u16; one or two label-map entries; unwind 10","fns":["duke::class_reader::labels::Labels::{new,get_or_create,get_or_create_range}"],"stubs":["RandomState::new","DefaultHasher::{write,finish}"]}
 proofs! {
 	#[cfg_attr(kani, kani::unwind(10))]
 	#[cfg_attr(kani, kani::stub(std::hash::RandomState::new, crate::hstubs::random_state_new))]
